@@ -95,13 +95,30 @@ def parse_table(out):
 PRIOR_FIELDS = ['x_velocity', 'pressure', 'Y(N2)', 'otherfield', 'Y(HO2)']
 
 
-def check_menu(mods, ref, opts, ctx, canary=False, history=False):
+def menu_extra(tool, fields):
+    """The other options of Menu, spelled in the run's name."""
+    kw = {}
+    if 'hv-absent' in tool:
+        kw['has_var'] = ['nope_field']
+    if 'hv-mixed' in tool:
+        kw['has_var'] = [fields[0], 'nope_field']
+    if 'description' in tool:
+        kw['description'] = True
+    if 'every' in tool:
+        kw['every'] = True
+    return kw
+
+
+def check_menu(mods, ref, opts, ctx, canary=False, history=False, extra=''):
     mod = mods['amr_kitchen.menu.menu']
     fs = SymFS()
     ref.write_symfs(fs, '/work/plt')
     obl = Obl(ctx)
     min_max, finest = opts
     what = 'Menu(min_max=%r, finest_lv=%r)' % (min_max, finest)
+    kw = menu_extra(extra, ref.fields)
+    if kw:
+        what = 'Menu(min_max=%r, finest_lv=%r, %s)' % (min_max, finest, ', '.join('%s=%r' % i for i in kw.items()))
     if history:
         # a history in one process: the menu of another plotfile (other fields, other species) is shown first
         Ref('o', ref.ndims, PRIOR_FIELDS, ref.ncell[0], [ref.boxes[0]], lo=ref.lo, dx0=ref.dx[0]).write_symfs(fs, '/work/other')
@@ -117,13 +134,16 @@ def check_menu(mods, ref, opts, ctx, canary=False, history=False):
                     pass
             pos0 = len(buf.getvalue())
             try:
-                mod.Menu('plt', min_max=min_max, finest_lv=finest)
+                mod.Menu('plt', min_max=min_max, finest_lv=finest, **kw)
             except Exception as e:
                 obl.fail('%s raised %s: %s' % (what, type(e).__name__, str(e)[:100]))
                 return obl
             out = buf.getvalue()[pos0:]
         if min_max or finest:
             cells = parse_table(out)
+            if kw.get('description') or kw.get('every'):
+                # the description listing also has `name : text` lines: a cell of the min/max table starts with two numbers
+                cells = [c for c in cells if len(c[1]) >= 2 and core.parse_token(c[1][0]) is not None and core.parse_token(c[1][1]) is not None]
             names = [c[0] for c in cells if c[0]]
             for f in ref.fields:
                 n = names.count(f)
@@ -132,7 +152,7 @@ def check_menu(mods, ref, opts, ctx, canary=False, history=False):
                     return obl
             lv = list(range(ref.nlev)) if not finest else [ref.nlev - 1]
             for name, parts in cells:
-                if not name:
+                if not name or name not in ref.fields:
                     continue
                 c = ref.fields.index(name)
                 emin = core.smin([ref.mins[l][b][c] for l in lv for b in range(len(ref.boxes[l]))])
@@ -310,6 +330,11 @@ def run_case(case):
               ('menu/min_max', lambda ctx: check_menu(mods, ref, (True, False), ctx)),
               ('menu/finest', lambda ctx: check_menu(mods, ref, (False, True), ctx)),
               ('menu/min_max+finest', lambda ctx: check_menu(mods, ref, (True, True), ctx)),
+              # the min/max table together with the other options (a search for a name the plotfile lacks, descriptions, the database)
+              ('menu/min_max+hv-absent', lambda ctx: check_menu(mods, ref, (True, False), ctx, extra='hv-absent')),
+              ('menu/finest+hv-mixed', lambda ctx: check_menu(mods, ref, (False, True), ctx, extra='hv-mixed')),
+              ('menu/min_max+description', lambda ctx: check_menu(mods, ref, (True, False), ctx, extra='description')),
+              ('menu/min_max+finest+every', lambda ctx: check_menu(mods, ref, (True, True), ctx, extra='every')),
               ('menu/default/history', lambda ctx: check_menu(mods, ref, (False, False), ctx, history=True)),
               ('menu/min_max/history', lambda ctx: check_menu(mods, ref, (True, False), ctx, history=True)),
               ('marinate', lambda ctx: check_marinate(mods, ref, ctx)),
